@@ -469,3 +469,55 @@ scan:
 		worker.Stop()
 	}
 }
+
+// TestConcurrentCipher: the broker shares one cipher between all connections; several goroutines encrypt and decrypt
+// distinct keys on the same cipher value at once. Every key must still round-trip and distinct keys give distinct strings.
+func TestConcurrentCipher(t *testing.T) {
+	rounds := vkit.N(20000)
+	for v := 1; v <= 3; v++ {
+		ci, _ := vkit.DetLicense(v, "verif").Cipher()
+		const G = 8
+		errs := make(chan string, G)
+		seen := make([]map[string]int, G)
+		done := make(chan int, G)
+		for g := 0; g < G; g++ {
+			seen[g] = map[string]int{}
+			go func(g int) {
+				defer func() { done <- g }()
+				for i := 0; i < rounds; i++ {
+					k := make([]byte, 24)
+					for j := range k {
+						k[j] = byte(g*31 + i*7 + j*13 + (i >> 8))
+					}
+					k[2], k[3], k[4], k[5], k[6] = byte(g), byte(i), byte(i>>8), byte(i>>16), 0x5a
+					s, err := ci.EncryptKey(security.Key(k))
+					if err != nil || !validString(s) {
+						errs <- fmt.Sprintf("EncryptKey under concurrency: %q %v", s, err)
+						return
+					}
+					d, err := ci.DecryptKey([]byte(s))
+					if err != nil || !bytes.Equal(d, k) {
+						errs <- fmt.Sprintf("license v%d: with %d goroutines sharing the cipher, key %x encrypts to a string that decrypts to %x (%v)", v, G, k, []byte(d), err)
+						return
+					}
+					if _, dup := seen[g][s]; dup {
+						errs <- fmt.Sprintf("license v%d: two distinct keys encrypt to %q under concurrency", v, s)
+						return
+					}
+					seen[g][s] = i
+				}
+			}(g)
+		}
+		for g := 0; g < G; g++ {
+			<-done
+		}
+		c := map[string]interface{}{"version": v, "goroutines": G, "rounds": rounds}
+		select {
+		case msg := <-errs:
+			vkit.ReportFailure(t.Name(), c, msg, "")
+			t.Fatal(msg)
+		default:
+		}
+		vkit.Record(t.Name(), c, vkit.OK(true, "concurrent-cipher"))
+	}
+}
